@@ -196,9 +196,11 @@ class GenerationDeltaTime:
         utc_timestamp_in_seconds : float
             Timestamp in seconds.
         """
-        msec = (
-            utc_timestamp_in_seconds * 1000 - ITS_EPOCH_MS + ELAPSED_MILLISECONDS
-        ) % 65536
+        # Work on integer microseconds: the float product ``seconds * 1000`` can fall just
+        # below the intended millisecond (e.g. for dates in 2038-2039) and be truncated to
+        # the previous one.
+        millis = round(utc_timestamp_in_seconds * 1_000_000) // 1000
+        msec = (millis - ITS_EPOCH_MS + ELAPSED_MILLISECONDS) % 65536
         return cls(msec=int(msec))
 
     def as_timestamp_in_certain_point(self, utc_timestamp_in_millis: int) -> float:
